@@ -57,6 +57,7 @@ Definition partial_okb (a k : pval) : bool :=
 Fixpoint fragb (F : cfacts) (D : denv) (v : pval) {struct v} : bool :=
   match v with
   | PScalar _ sc => scalar_rt_ok sc
+  | PBytes _ _ mo c _ => resolvable F mo c        (* bytes / bytearray and their subclasses: the dumped class is resolved at load *)
   | PSeq q _ mo c nt l => pstr_eqb mo (s "builtins") && negb nt && seq_clsb q c && forallb (fun x => fragb F D x) l
   | PDict _ mo c l => dict_clsb mo c && itemsb F D l && forallb (fun kv => fragb F D (snd kv)) l
   | PDefDict _ mo c f l =>
@@ -210,8 +211,10 @@ Proof.
   destruct (vok_Q D F (c_env C) C [] base Objs Ofun Oid Hr HC Hs (fun h x1 x2 H1 => match H1 with end) HEC HCg v Hv _ _ _ Hst ltac:(cbn; lia))
     as [Hl [_ [[_ [Hftd _]] _]]].
   split; [exact Hl|].
-  assert (HFone : forall h x1 x2, In (h, x1) (file_table j) -> In (h, x2) (file_table j) -> x1 = x2)
-    by (exact (FTd_one base Objs Ofun Oid j Hftd)).
+  assert (Hmok0 : MOK base Objs (init_dst base)) by (intros f b Hd; discriminate Hd).
+  rewrite <- HCm in Hftd.
+  assert (HFone : forall h x1 x2, In (h, x1) (file_table j) -> In (h, x2) (file_table j) -> fblob C x1 = fblob C x2)
+    by (exact (FTd_one C base Objs Ofun Oid _ j Hmok0 Hftd)).
   destruct (vok_Q D F (c_env C) C (file_table j) base Objs Ofun Oid Hr HC Hs HFone HEC HCg v Hv _ _ _ Hst ltac:(cbn; lia)) as [_ [_ [_ HQ]]].
   assert (Hpre : Pre C (file_table j) base Objs (init_dst base) j st).
   { split; [intros f b Hd; discriminate Hd|]. split; [rewrite HCm; apply lk_refl|apply incl_refl]. }
